@@ -343,7 +343,7 @@ func c12Run(c *Case) {
 func init() {
 	register(&Prop{
 		ID: "C12", Level: "exploration",
-		Rule: "sampled: a runtime fault (33 kinds x 35 positions x 3 contexts, as in C11) or a syntax splice (22 kinds) planted into a program with filler functions/rules before and after, laid out at random over many lines (blank lines, comment lines and trailing comments with non-ASCII text, CRLF, tabs, statements joined by ';', multi-byte string literals directly before the fault on the same line or on earlier lines); the planted construct is kept on one line and its byte span is known from the renderer. Level 1 for every error: 1 <= Line <= #lines and SrcLine is exactly line Line of the text (lines split on \\n only). Level 2: Line is the fault's line and Col lies inside the span (illegal bytes and misplaced return/break/continue: exactly on the token). A sample is re-run through the binary and the three stderr lines are re-parsed. Non-trivial = >= 3 lines with the fault not on line 1, or a multi-byte character before the fault on its line; distinct by program text.",
+		Rule: "sampled: a runtime fault (36 kinds x 35 positions x 3 contexts, as in C11) or a syntax splice (22 kinds) planted into a program with filler functions/rules before and after, laid out at random over many lines (blank lines, comment lines and trailing comments with non-ASCII text, CRLF, tabs, statements joined by ';', multi-byte string literals directly before the fault on the same line or on earlier lines); the planted construct is kept on one line and its byte span is known from the renderer. Level 1 for every error: 1 <= Line <= #lines and SrcLine is exactly line Line of the text (lines split on \\n only). Level 2: Line is the fault's line and Col lies inside the span (illegal bytes and misplaced return/break/continue: exactly on the token). A sample is re-run through the binary and the three stderr lines are re-parsed. Non-trivial = >= 3 lines with the fault not on line 1, or a multi-byte character before the fault on its line; distinct by program text.",
 		NumCases: func(tier string) int {
 			if tier == "thorough" {
 				return 2000000
